@@ -677,9 +677,42 @@ def run(ctx: Any, prog: Program) -> None:
             if not dest:
                 continue
             me7 = f7.args.args[0].arg
+            # locals computed from the destination parameter (`target = self.map if vmf_file is None else vmf_file`)
+            derived7: Dict[str, ast.AST] = {}
+            for a7 in walk_no_nested(f7):
+                if isinstance(a7, ast.Assign) and len(a7.targets) == 1 and isinstance(a7.targets[0], ast.Name) and any(isinstance(x, ast.Name) and x.id in dest for x in ast.walk(a7.value)):
+                    derived7[a7.targets[0].id] = a7.value
             for c in walk_no_nested(f7):
                 if isinstance(c, ast.Call) and isinstance(c.func, ast.Attribute) and c.func.attr == 'copy' and not (isinstance(c.func.value, ast.Name) and c.func.value.id == me7):
                     passed = list(c.args) + [k.value for k in c.keywords]
+                    via_local = [a for a in passed if isinstance(a, ast.Name) and a.id in derived7]
+                    if via_local:
+                        # whether a map was asked for is information too: a callee that tests its destination parameter against None (Side.copy:
+                        # "a map was given, so this is a copy into another map - keep my id") has to be handed the parameter as it came, not a
+                        # local in which the default has already been filled in
+                        pos7 = next(i for i, a in enumerate(c.args) if a is via_local[0]) if via_local[0] in c.args else None
+                        kw7 = next((k.arg for k in c.keywords if k.value is via_local[0]), None)
+                        sens = []
+                        for q8, fl8 in vm.all_funcs().items():
+                            if not q8.endswith('.copy'):
+                                continue
+                            for f8 in fl8:
+                                names8 = [a.arg for a in f8.args.args[1:]]
+                                pn8 = names8[pos7] if pos7 is not None and pos7 < len(names8) else kw7
+                                if pn8 not in MAPP or (kw7 is not None and kw7 not in names8 + [a.arg for a in f8.args.kwonlyargs]) or len(c.args) > len(names8):
+                                    continue
+                                tests8 = [t for t in ast.walk(f8) if isinstance(t, ast.Compare) and isinstance(t.left, ast.Name) and t.left.id == pn8 and len(t.ops) == 1 and isinstance(t.ops[0], (ast.Is, ast.IsNot))
+                                          and isinstance(t.comparators[0], ast.Constant) and t.comparators[0].value is None]
+                                # a test that only fills in the default map (`if vmf is None: vmf = self.vmf`) carries no other meaning
+                                other8 = [t for t in tests8 if not (isinstance(vm.parents.get(t), ast.If) and all(isinstance(b, ast.Assign) and dotted(b.targets[0]) == pn8 for b in vm.parents[t].body) and not vm.parents[t].orelse)
+                                          and not isinstance(vm.parents.get(t), ast.IfExp)]
+                                if other8:
+                                    sens.append((q8, other8[0]))
+                        defaulted = not (isinstance(derived7[via_local[0].id], ast.Name))
+                        ctx.check('C09.P7', not (sens and defaulted), vm, c, f'{q7} hands `{U(c)[:60]}` the local `{via_local[0].id}` = `{U(derived7[via_local[0].id])[:60]}`, in which the default map is already filled in; '
+                                  + (f'{sens[0][0]} reads `{U(sens[0][1])}` as "a destination was given" and behaves differently then (a same-map copy is treated like a copy into another map)' if sens else ''),
+                                  func=q7, text=f'{q7}: `{U(c)[:50]}` gets the destination map')
+                        continue
                     src_map = [a for a in passed if isinstance(a, ast.Attribute) and isinstance(a.value, ast.Name) and a.value.id == me7 and a.attr in MAPP]
                     takes_map = any(isinstance(a, ast.Name) and a.id in dest for a in passed) or bool(src_map) or any(k.arg in MAPP for k in c.keywords)
                     if not takes_map:
@@ -836,6 +869,8 @@ def run(ctx: Any, prog: Program) -> None:
 
 
 MUTANTS = [
+    {'id': 'solid_copy_hands_sides_defaulted_map', 'file': 'vmf.py', 'find': "        sides = [\n            s.copy(-1, vmf_file, side_mapping)", 'replace': "        target = self.map if vmf_file is None else vmf_file\n        sides = [\n            s.copy(-1, target, side_mapping)", 'expect': 'C09.P7'},
+    {'id': 'ok_solid_copy_alias_of_parameter', 'file': 'vmf.py', 'find': "        sides = [\n            s.copy(-1, vmf_file, side_mapping)", 'replace': "        target = vmf_file\n        sides = [\n            s.copy(-1, target, side_mapping)", 'expect': None, 'note': 'negative control: plain alias of the parameter'},
     {'id': 'visgroup_children_copied_without_map', 'file': 'vmf.py', 'find': "                child.copy(vmf, group_mapping)\n", 'replace': "                child.copy(group_mapping=group_mapping)\n", 'expect': 'C09.P7'},
     {'id': 'visgroup_children_copied_into_source_map', 'file': 'vmf.py', 'find': "                child.copy(vmf, group_mapping)\n", 'replace': "                child.copy(self.vmf, group_mapping)\n", 'expect': 'C09.P7'},
     {'id': 'side_copy_returns_before_strata_points', 'file': 'vmf.py', 'find': "        if self.strata_points is not None:\n            new_side.strata_points = [point.copy() for point in self.strata_points]\n", 'replace': "        if not self.is_disp:\n            return new_side\n        if self.strata_points is not None:\n            new_side.strata_points = [point.copy() for point in self.strata_points]\n", 'expect': 'C09.P6'},
